@@ -29,8 +29,12 @@ type Req struct {
 	Mode    uint              `json:"mode,omitempty"`
 	Lo      uint              `json:"lo,omitempty"`
 	Hi      uint              `json:"hi,omitempty"`
-	Dir     string            `json:"dir,omitempty"`   // scratch working directory for expansions
-	Width   uint              `json:"width,omitempty"` // selects the indentation width of the space-indenting configurations (see config in cmd/worker)
+	Dir     string            `json:"dir,omitempty"` // scratch working directory for expansions
+	// Head, Unit, N: for large flat inputs the source text is Head + N times Unit + Src
+	Head  string `json:"head,omitempty"`
+	Unit  string `json:"unit,omitempty"`
+	N     int    `json:"n,omitempty"`
+	Width uint   `json:"width,omitempty"` // selects the indentation width of the space-indenting configurations (see config in cmd/worker)
 }
 
 // JSON cannot carry strings that are not valid UTF-8 (encoding/json replaces
